@@ -126,6 +126,7 @@ type sxMachine struct {
 	// appended: values appended to slices (slice-typed field path -> appended element)
 	appended []sxVal
 	steps    int
+	depth    int
 }
 
 func (m *sxMachine) fail(format string, a ...interface{}) {
@@ -442,6 +443,35 @@ func (m *sxMachine) call(x *ssa.Call) {
 		}
 		m.reg[x] = r
 		return
+	}
+	// a helper of the module asked about the cluster (a predicate over the scanned bytes): it is
+	// executed on the concrete model; anything it cannot decide makes its result opaque
+	if cal != nil && inModule(cal) && len(cal.Blocks) > 0 && len(cal.Params) == len(x.Call.Args) && cal.Signature.Results().Len() == 1 && m.depth < 2 {
+		concrete := len(x.Call.Args) > 0
+		for _, a := range x.Call.Args {
+			switch v := m.val(a).(type) {
+			case sxModel, sxBool:
+			case sxLin:
+				if !v.isConst() {
+					concrete = false
+				}
+			default:
+				concrete = false
+			}
+		}
+		if concrete {
+			sub := &sxMachine{fn: cal, names: map[*ssa.Parameter]string{}, reg: map[ssa.Value]sxVal{}, mem: map[string]sxVal{}, model: m.model, depth: m.depth + 1}
+			for i, p := range cal.Params {
+				sub.reg[p] = m.val(x.Call.Args[i])
+			}
+			_, last := sub.run(cal.Blocks[0], nil, nil, nil)
+			if sub.err == "" && last != nil {
+				if ret, ok := last.Instrs[len(last.Instrs)-1].(*ssa.Return); ok && len(ret.Results) == 1 {
+					m.reg[x] = sub.val(ret.Results[0])
+					return
+				}
+			}
+		}
 	}
 	m.reg[x] = sxOpaque{x.Name()}
 }
